@@ -43,7 +43,7 @@ func (*engine) Describe() simkit.Description {
 			"searches on an empty tree or with no expected visit and no abort are trivial and not counted.",
 		Assumptions: []string{
 			"Coordinates are integers times a power of two (|mantissa| <= 2^20) in all layouts but 'general-floats', so every squared box distance is exact in float64 and order is checked exactly; in 'general-floats' order is checked with a relative allowance of 1e-12.",
-			"errors.Join(Stop, other) and error types with a custom Is() claiming to be Stop are outside the property's statement and not generated.",
+			"errors.Join(Stop, otherError) (ambiguous: both a Stop and an error) and error types with a custom Is() claiming to be Stop are outside the property's statement and not generated; wrapping trees that contain Stop and nothing else (errors.Join(Stop), %w around it) are generated and must surface as nil.",
 			"The rtree package is run as real code, instrumented only with yield points (no semantic rewrite).",
 		},
 		Real:      []string{"rtree (all of it: BulkLoad, RangeSearch, PrioritySearch, Nearest, Count, Extent)"},
@@ -328,13 +328,15 @@ const (
 	abStop
 	abWrapStop1
 	abWrapStop2
+	abJoinStop
+	abMultiWrapStop
 	abErr
 	abWrapErr
 	abPanic
 	nAbortKinds
 )
 
-var abortNames = [nAbortKinds]string{"none", "stop", "wrapped-stop", "wrapped-stop-2", "error", "wrapped-error", "panic"}
+var abortNames = [nAbortKinds]string{"none", "stop", "wrapped-stop", "wrapped-stop-2", "joined-stop", "multi-wrapped-stop", "error", "wrapped-error", "panic"}
 
 type sentinel struct{ n int }
 
@@ -391,6 +393,11 @@ func (s *search) mkAbort() {
 		s.want = fmt.Errorf("ctx: %w", rtree.Stop)
 	case abWrapStop2:
 		s.want = fmt.Errorf("outer: %w", fmt.Errorf("inner: %w", rtree.Stop))
+	case abJoinStop:
+		// a wrapping tree that contains Stop and nothing else: unambiguously "wrapped Stop"
+		s.want = errors.Join(rtree.Stop)
+	case abMultiWrapStop:
+		s.want = fmt.Errorf("layer: %w", errors.Join(fmt.Errorf("inner: %w", rtree.Stop)))
 	case abErr:
 		s.want = &sentinel{s.k}
 	case abWrapErr:
@@ -626,7 +633,7 @@ func (c *checker) check(s *search) {
 		}
 	case s.panicked != nil:
 		c.fail("panic", s, "search", fmt.Sprint(s.panicked))
-	case aborted && (s.abort == abStop || s.abort == abWrapStop1 || s.abort == abWrapStop2):
+	case aborted && abortClass(s.abort) == "stop":
 		if s.ret != nil {
 			c.fail("stop-not-nil", s, abortNames[s.abort], fmt.Sprintf("returned %v, want nil", s.ret))
 		}
@@ -643,7 +650,7 @@ func (c *checker) check(s *search) {
 
 func abortClass(a int) string {
 	switch a {
-	case abStop, abWrapStop1, abWrapStop2:
+	case abStop, abWrapStop1, abWrapStop2, abJoinStop, abMultiWrapStop:
 		return "stop"
 	case abPanic:
 		return "panic"
